@@ -40,6 +40,10 @@ D4 == Branch(<<>>, "store", None, "")
 D5 == Branch(<<App(3)>>, "fr", None, "")
 D6 == Branch(<<>>, "fr", None, "")
 DataTemplates == {D1, D2, D3, D4, D5, D6}
+\* the class of the context objects of the flow: a plain dict, lena.context.Context, collections.OrderedDict,
+\* collections.defaultdict, a user subclass of dict.  The semantics do not depend on it (every protective copy
+\* is a deep copy whatever the class); branches with in-place updates below the top level:
+NestTemplates == {S4, S1, F5, F1, R2, R1}
 FewTemplates == {S1, S3, S4, F1, F3, R1, SRC}
 FillFew == {F1, F3, F5, R1, R2}
 
